@@ -250,6 +250,13 @@ func checkListParse(p *Program, r *Report) {
 				}
 			}
 		}}
+	// the splitting and filtering may live in a helper of the list reader
+	cfg.Inline = map[string]bool{}
+	for _, h := range withHelpers(p, f)[1:] {
+		if k := funcKey(h); !cfg.Pure[k] && !cfg.Opaque[k] && h.Parent() == nil {
+			cfg.Inline[k] = true
+		}
+	}
 	c, _ := runSim(p, f, cfg, nil)
 	n := 0
 	for _, s := range c.Samples {
@@ -268,7 +275,7 @@ func checkListParse(p *Program, r *Report) {
 					continue
 				}
 				sep := line.Args[0].Args[len(line.Args[0].Args)-1]
-				if s2, ok := constString(sep); !ok || s2 != "\n" {
+				if s2, ok := constString(sep); (!ok || s2 != "\n") && !isNewlineBytes(s.St, sep) {
 					okAll = false
 					why = "the file is not split on newline"
 				}
@@ -286,4 +293,26 @@ func checkListParse(p *Program, r *Report) {
 		}
 	}
 	r.floor("LIST-PARSE", n, 1, "successful returns of the list reader")
+}
+
+// isNewlineBytes: the value is the byte slice literal []byte{'\n'} (a slice of
+// a one-element array whose only cell holds 10).
+func isNewlineBytes(st *State, t *Term) bool {
+	base := t
+	for base.Op == "slice" || base.Op == "subslice" {
+		base = base.Args[0]
+	}
+	if base.Op != "alloc" {
+		return false
+	}
+	n, ten := 0, false
+	for _, c := range st.mem {
+		if c.addr != nil && c.addr.Op == "index" && c.addr.Args[0] == base {
+			n++
+			if c.val != nil && c.val.isConst() && c.val.Aux == "10" && c.addr.Args[1].isConst() && c.addr.Args[1].Aux == "0" {
+				ten = true
+			}
+		}
+	}
+	return n == 1 && ten
 }
